@@ -49,6 +49,8 @@ type respClient struct {
 	DrainFor time.Duration
 	// Poll: the consumer polls with wait=false at these simulated times instead of draining.
 	PollAt []time.Duration
+	// NoDump: record delivered packages without rendering them (C10 measures allocations).
+	NoDump bool
 }
 
 type respResult struct {
@@ -202,6 +204,10 @@ func runResp(cfg simrt.Config, d respDelivery, c respClient) *respResult {
 				continue
 			}
 			consecutiveErrs = 0
+			if c.NoDump {
+				res.Recs = append(res.Recs, PkgRec{Type: "pkg", Now: simrt.SimNow()})
+				continue
+			}
 			res.Recs = append(res.Recs, recPkg(pkg))
 		}
 	})
